@@ -2,6 +2,7 @@
 import re
 
 from common import find_aggs
+from factlib import resolve_const
 
 PUNCT = {"!", "$", "&", "(", ")", "...", ":", "=", "@", "[", "]", "{", "|", "}"}
 P = "async_graphql_parser::parse"
@@ -327,3 +328,109 @@ def run(F, R):
         ins_v = [c for c in pq.calls_to(r"hash::map::\{impl#\d+\}::insert$|VacantEntry.*::insert$") if vac is not None and c.bb in pq.reachable(vac, avoid=[bb])]
         ins_o = [c for c in pq.calls_to(r"VacantEntry.*::insert$|hash::map::\{impl#\d+\}::insert$") if occ is not None and c.bb in pq.reachable(occ, avoid=[bb]) and c not in ins_v]
         R.check(bool(ins_v), "R13.5", "parse_query:insert-on-vacant", pq.where(), "insert on the Vacant arm", "no insert on the Vacant arm")
+
+    # ---------------------------------------------------------------- R13.8
+    R.rule("R13.8", "production shapes: the ordered components of each multi-part production equal the specification's production (GraphQL October 2021 "
+                    "§2 / §3): in particular VariableDefinition is `Variable : Type DefaultValue? Directives?`, and lists that the specification writes with "
+                    "`+` are not `*`")
+
+    def flat(e):
+        return flat(e[1]) + flat(e[2]) if e[0] == "seq" else [e]
+
+    def show(e):
+        k = e[0]
+        if k == "id":
+            return e[1]
+        if k == "str":
+            return "'%s'" % e[1]
+        if k == "opt":
+            return show(e[1]) + "?"
+        if k == "rep":
+            return show(e[1]) + "*"
+        if k in ("rep1", "rep_once"):
+            return show(e[1]) + "+"
+        if k == "choice":
+            return "(" + show(e[1]) + "|" + show(e[2]) + ")"
+        if k == "seq":
+            return "(" + " ".join(show(x) for x in flat(e)) + ")"
+        if k == "neg":
+            return "!" + show(e[1])
+        return k
+
+    SPEC = {
+        "named_operation_definition": "operation_type name? variable_definitions? directives? selection_set",
+        "variable_definitions": "'(' variable_definition+ ')'",
+        "variable_definition": "variable ':' type_ default_value? directives?",
+        "field": "alias? name arguments? directives? selection_set?",
+        "fragment_spread": "'...' !type_condition name directives?",
+        "inline_fragment": "'...' type_condition? directives? selection_set",
+        "fragment_definition": "'fragment' name type_condition directives? selection_set",
+        "field_definition": "string? name arguments_definition? ':' type_ const_directives?",
+        "input_value_definition": "string? name ':' type_ default_value? const_directives?",
+        "enum_value_definition": "string? enum_value const_directives?",
+        "arguments_definition": "'(' input_value_definition+ ')'",
+        "fields_definition": "'{' field_definition+ '}'",
+        "enum_values": "'{' enum_value_definition+ '}'",
+        "input_fields_definition": "'{' input_value_definition+ '}'",
+        "selection_set": "'{' selection+ '}'",
+        "arguments": "'(' argument+ ')'",
+        "const_arguments": "'(' const_argument+ ')'",
+        "directive": "'@' name arguments?",
+        "const_directive": "'@' name const_arguments?",
+        "argument": "name ':' value",
+        "object_field": "name ':' value",
+        "default_value": "'=' const_value",
+        "operation_type_definition": "operation_type ':' name",
+    }
+    n8 = 0
+    for name, want in sorted(SPEC.items()):
+        r = g.get(name)
+        if r is None:
+            R.violation("R13.8", "production-missing:" + name, "parser/src/graphql.pest", "rule `%s` not found in the grammar" % name)
+            continue
+        n8 += 1
+        got = " ".join(show(x) for x in flat(r["expr"]))
+        R.check(got == want, "R13.8", "production-shape:%s%s" % (name, "" if got == want else " = " + got), "parser/src/graphql.pest:" + name, got,
+                "rule `%s` is `%s` where the specification's production is `%s`: documents written in the specified order are rejected, or forms the "
+                "specification excludes are accepted" % (name, got, want))
+    R.floor("R13.8", "productions compared with the specification", n8, 20)
+
+    # ---------------------------------------------------------------- R13.9
+    R.rule("R13.9", "presence flags: a grammar rule whose presence a builder tests (parse_if_rule / next_if_rule with Rule::X) must not be able to match the "
+                    "empty string — pest emits a pair for a rule that matched nothing, so the flag would always be set")
+
+    def nullable(e, seen=()):
+        k = e[0]
+        if k in ("opt", "rep", "neg", "pos"):
+            return True
+        if k == "str":
+            return e[1] == ""
+        if k == "seq":
+            return nullable(e[1], seen) and nullable(e[2], seen)
+        if k == "choice":
+            return nullable(e[1], seen) or nullable(e[2], seen)
+        if k == "id":
+            if e[1] in seen or e[1] not in g:
+                return e[1] in ("SOI", "EOI")
+            return nullable(g[e[1]]["expr"], seen + (e[1],))
+        if k in ("rep1", "rep_once", "push"):
+            return nullable(e[1], seen)
+        if k == "repn":
+            return e[2] == 0 or nullable(e[1], seen)
+        return False
+
+    tested = set()
+    for b in F.find(r"^async_graphql_parser::parse::"):
+        for c in b.calls():
+            if c.callee and re.search(r"parse::utils::(parse_if_rule|next_if_rule)$", c.callee) and len(c.args) > 1:
+                k = resolve_const(b, c.args[1])
+                if k and k.get("variant"):
+                    tested.add(k["variant"])
+    R.floor("R13.9", "rules whose presence the builders test", len(tested), 12)
+    for name in sorted(tested):
+        r = g.get(name)
+        if r is None:
+            continue
+        R.check(not nullable(r["expr"], (name,)), "R13.9", "presence-rule-not-nullable:" + name, "parser/src/graphql.pest:" + name, "cannot match the empty string",
+                "rule `%s` can match the empty string, and a builder uses the presence of its pair as a flag: the flag is set for every input "
+                "(e.g. every directive definition is reported as `repeatable`)" % name)
